@@ -30,6 +30,7 @@ func c12(c *Ctx) {
 	pooledObjectsReset(c, "session-object-fresh", "services/ftp", "services/ldap", "services/ssh")
 	c12FreshSession(c)
 	c12ReplyPerRequest(c)
+	c12AttemptsNotCapped(c)
 }
 
 // ---------- helpers
@@ -1264,4 +1265,83 @@ func c12ReplyPerRequest(c *Ctx) {
 		}
 	}
 	c.Floor(rule, 4, "bind (2), catch-all, extended")
+}
+
+// c12AttemptsNotCapped: "an attempt succeeds iff its pair is configured, independently of earlier failed attempts" holds
+// for ssh only while the library is told not to cut a connection off after a number of failures: x/crypto/ssh reads
+// MaxAuthTries == 0 as "six attempts", a negative value as unlimited. Wherever an ssh service builds its ServerConfig,
+// MaxAuthTries is stored on every path to NewServerConn, from the service's configured value (default -1) or a negative
+// constant. Left at zero on some path, the seventh attempt of a connection is never evaluated and never reported.
+func c12AttemptsNotCapped(c *Ctx) {
+	p := c.P
+	const rule = "ssh-attempts-not-capped"
+	n := 0
+	for _, fn := range p.FuncsIn("services/ssh") {
+		if fn.Blocks == nil || strings.HasSuffix(p.Fset.Position(fn.Pos()).Filename, "_test.go") {
+			continue
+		}
+		for _, call := range Calls(fn) {
+			f := call.Common().StaticCallee()
+			if f == nil || f.Name() != "NewServerConn" || len(call.Common().Args) != 2 {
+				continue
+			}
+			cfg, ok := c15Root(call.Common().Args[1]).(*ssa.Alloc)
+			if !ok {
+				continue
+			}
+			// only services that authenticate by password themselves
+			hasPW := false
+			var stores []*ssa.Store
+			for _, ref := range *cfg.Referrers() {
+				fa, isFA := ref.(*ssa.FieldAddr)
+				if !isFA {
+					continue
+				}
+				for _, r2 := range *fa.Referrers() {
+					st, isSt := r2.(*ssa.Store)
+					if !isSt || st.Addr != ssa.Value(fa) {
+						continue
+					}
+					switch fieldNameOf(fa) {
+					case "PasswordCallback":
+						hasPW = true
+					case "MaxAuthTries":
+						stores = append(stores, st)
+					}
+				}
+			}
+			// the property names the ssh simulator (ssh-auth and ssh-jail never accept a password / need an external jail)
+			root := fn
+			for root.Parent() != nil {
+				root = root.Parent()
+			}
+			if !hasPW || root.Signature.Recv() == nil || NamedOf(root.Signature.Recv().Type()) == nil || NamedOf(root.Signature.Recv().Type()).Obj().Name() != "sshSimulatorService" {
+				continue
+			}
+			n++
+			key := shortFn(fn) + " ServerConfig.MaxAuthTries"
+			good := false
+			why := "MaxAuthTries is never set: the library's default of six attempts per connection applies"
+			for _, st := range stores {
+				okVal := false
+				if k, isK := ConstInt(st.Val); isK {
+					okVal = k < 0
+				} else if ld, isLd := st.Val.(*ssa.UnOp); isLd && ld.Op == token.MUL {
+					if fa, isFA := ld.X.(*ssa.FieldAddr); isFA && c15Root(fa.X) == ssa.Value(fn.Params[0]) {
+						okVal = true // the service's configured value
+					}
+				}
+				dom := st.Block() == call.Block() && before(st, call) || st.Block().Dominates(call.Block())
+				if okVal && dom {
+					good = true
+				} else if !dom {
+					why = "MaxAuthTries is only set on some paths (" + p.InstrPos(st) + "): where it is left at zero the library allows six attempts per connection"
+				} else {
+					why = "MaxAuthTries is set to " + RenderN(st.Val, 2) + ", not the service's configured value or a negative constant"
+				}
+			}
+			c.Check(good, rule, key, p.InstrPos(call), "set on every path from the service's configuration (default -1: unlimited)", why+": the seventh password attempt on a connection is then cut off before it is evaluated – a configured pair offered after six failures is not accepted and produces no event")
+		}
+	}
+	c.Floor(rule, 1, "ssh-simulator")
 }
